@@ -360,54 +360,126 @@ def stage_budget(ctx):
     ctx.traces += len(cases) + len(hours)
 
 
+WEATHER_HOUR = 8   # the hour of the day check_weather looks at (Method.HOUR of the unchanged code)
+
+
+def weather_dates(ctx):
+    """every day-of-year incl. 366 of the leap years, and the year boundaries"""
+    bnd = []
+    for y in (2020, 2024, 2021, 2023):
+        for (m, d) in ((12, 30), (12, 31), (1, 1), (1, 2), (2, 28), (3, 1)):
+            bnd.append(dt.date(y, m, d))
+        if y % 4 == 0:
+            bnd.append(dt.date(y, 2, 29))
+    allyear = []
+    for y in ((2020, 2024) if ctx.quick else (2020, 2024, 2021)):
+        d = dt.date(y, 1, 1)
+        while d.year == y:
+            allyear.append(d)
+            d += dt.timedelta(days=1)
+    if ctx.quick:
+        ctx.rng.shuffle(allyear)
+        allyear = allyear[:70]
+    return bnd, allyear
+
+
 def stage_weather(ctx):
-    """real WeatherLookup + Infrastructure.set_weather_index + check_weather + deploy_crews"""
+    """real WeatherLookup + Infrastructure.set_weather_index + check_weather + deploy_crews.
+    The cube makes the days pairwise distinguishable: over the 3x3 cells, day-of-year d (0-based)
+    carries the in/out-of-envelope pattern of the binary digits of d+1, so reading any other day's
+    weather shows at some cell.  The oracle reads the cube itself at (tm_yday-1)*24 + WEATHER_HOUR of
+    the site's nearest cell (own nearest-cell computation, own index arithmetic)."""
     from harness.adapters import crew as C
 
-    n_cubes = ctx.pick(3, 16)
+    bnd, sample = weather_dates(ctx)
+    n_cubes = ctx.pick(2, 6)
     for cube in range(n_cubes):
         seed = ctx.rng.randrange(1 << 30)
-        lats = [60.0, 20.0, 40.0] if cube % 2 == 0 else [10.0, 30.0, 50.0, 70.0]
+        lats = [60.0, 20.0, 40.0] if cube % 2 == 0 else [50.0, 10.0, 30.0]
         lons = [-80.0, -120.0, -100.0]
-        pool = CC.WX_OK + CC.WX_BAD
+        nlon = len(lons)
 
-        def fn(h, i, j, seed=seed, pool=pool):
-            return pool[(seed + h * 31 + i * 7 + j * 3) % len(pool)]
+        def fn(doy, i, j, seed=seed, nlon=nlon):
+            inside = ((doy + 1) >> (i * nlon + j)) & 1
+            k = seed + doy * 5 + i * 3 + j
+            return CC.WX_OK[k % len(CC.WX_OK)] if inside else CC.WX_BAD[k % len(CC.WX_BAD)]
 
         weather = C.real_weather(fn, lats, lons)
-        sites = []
-        for k in range(ctx.pick(6, 12)):
-            sites.append(C.LocSite("w%d" % k, 5, ctx.rng.uniform(5, 75), ctx.rng.uniform(-125, -75)))
-        C.place_sites(sites, weather)
-        # independent nearest-cell computation (ties: first minimum of the sorted axis, like argmin)
         slats, slons = sorted(lats), sorted(lons)
+        # one site near every cell (so each day's pattern is fully observed) + a few random ones
+        sites = []
+        for a, la in enumerate(lats):
+            for b, lo in enumerate(lons):
+                sites.append(C.LocSite("w%d%d" % (a, b), 5, la + ctx.rng.uniform(-4, 4), lo + ctx.rng.uniform(-4, 4)))
+        for k in range(ctx.pick(2, 6)):
+            sites.append(C.LocSite("r%d" % k, 5, ctx.rng.uniform(5, 75), ctx.rng.uniform(-125, -75)))
+        C.place_sites(sites, weather)
+        days = list(bnd) + (sample if cube == 0 or not ctx.quick else sample[:15])
         for cls in ("method", "component"):
-            for _ in range(ctx.pick(25, 120)):
-                day = dt.date(2021, 1, 1) + dt.timedelta(days=ctx.rng.randrange(0, 365))
+            for day in (days if cls == "method" else days[:: ctx.pick(3, 2)] + bnd):
                 res, wp = C.impl_weather_day(cls, sites, weather, day)
                 queued, done = C.requeue_classes(wp, day)
-                doy0 = day.timetuple().tm_yday - 1
-                for s in sites:
-                    la, lo = s.get_loc()
+                # --- independent reading of the cube: index = (day of year - 1) * 24 + hour ---------
+                hour_index = (day.timetuple().tm_yday - 1) * 24 + WEATHER_HOUR
+                leap_last = day.timetuple().tm_yday == 366
+                for s_ in sites:
+                    la, lo = s_.get_loc()
                     i_sorted = min(range(len(slats)), key=lambda a: abs(slats[a] - la))
                     j_sorted = min(range(len(slons)), key=lambda a: abs(slons[a] - lo))
                     i, j = lats.index(slats[i_sorted]), lons.index(slons[j_sorted])
-                    (t, w, p) = fn(doy0, i, j)
+                    (t, w, p) = fn(day.timetuple().tm_yday - 1, i, j)
+                    cube_vals = (float(weather.temps[hour_index, i, j]), float(weather.winds[hour_index, i, j]),
+                                 float(weather.precip[hour_index, i, j]))
+                    if cube_vals != (C.rt_temp(t), float(w), C.rt_precip(p)):
+                        raise core.InfraError("synthetic weather cube does not hold the generated value at %s" % day)
                     e = C.ENV
                     ok = e["temp"][0] <= t <= e["temp"][1] and e["wind"][0] <= w <= e["wind"][1] and e["precip"][0] <= p <= e["precip"][1]
-                    visited, rep = res[s.get_id()]
+                    visited, rep = res[s_.get_id()]
                     ctx.evaluations += 1
                     ctx.count("weather:" + ("workable" if ok else "unworkable"))
-                    ctx.nontrivial.add(("weather", cls, ok, (t < e["temp"][0]) or (t > e["temp"][1]), w > e["wind"][1], p > e["precip"][1]))
+                    if leap_last:
+                        ctx.count("weather:day-366-of-leap-year")
+                    ctx.nontrivial.add(("weather", cls, ok, (t < e["temp"][0]) or (t > e["temp"][1]), w > e["wind"][1],
+                                        p > e["precip"][1], leap_last, day.month in (1, 12), (day.month, day.day) == (2, 29)))
                     inp = {"weather": {"cls": cls, "lats": lats, "lons": lons, "seed": seed, "site_loc": [la, lo],
-                                       "day": str(day), "cell": [i, j], "values": [t, w, p], "visited": visited, "report": list(rep)}}
+                                       "day": str(day), "cell": [i, j], "hour_index": hour_index, "values": [t, w, p],
+                                       "visited": visited, "report": list(rep)}}
                     if visited and not ok:
-                        ctx.violate("C08:weather:visited-outside-envelope", "site visited on a day whose weather at its nearest cell is outside the envelope", inp)
+                        ctx.violate("C08:weather:visited-outside-envelope" + (":day-366" if leap_last else ""),
+                                    "site visited on a day whose weather at its nearest cell is outside the envelope", inp)
                     if ok and not visited:
                         ctx.disagree("crew.weather/" + cls, inp, "workable", "not visited")
-                    if not ok and (rep != (0, 0, 0, 0, 0) or queued.get(s.get_id()) != [2] or s.get_id() in done):
+                    if not ok and (rep != (0, 0, 0, 0, 0) or queued.get(s_.get_id()) != [2] or s_.get_id() in done):
                         ctx.violate("C08:weather:unworkable-request-not-requeued", "unworkable site's report changed or request not re-queued once", inp)
         ctx.traces += 1
+
+
+def replay_weather(ctx, w):
+    from harness.adapters import crew as C
+
+    seed, lats, lons = w["seed"], w["lats"], w["lons"]
+    nlon = len(lons)
+
+    def fn(doy, i, j):
+        inside = ((doy + 1) >> (i * nlon + j)) & 1
+        k = seed + doy * 5 + i * 3 + j
+        return CC.WX_OK[k % len(CC.WX_OK)] if inside else CC.WX_BAD[k % len(CC.WX_BAD)]
+
+    weather = C.real_weather(fn, lats, lons)
+    site = C.LocSite("w", 5, w["site_loc"][0], w["site_loc"][1])
+    C.place_sites([site], weather)
+    day = dt.date(*[int(x) for x in w["day"].split("-")])
+    res, wp = C.impl_weather_day(w["cls"], [site], weather, day)
+    (t, wi, p) = fn(day.timetuple().tm_yday - 1, w["cell"][0], w["cell"][1])
+    e = C.ENV
+    ok = e["temp"][0] <= t <= e["temp"][1] and e["wind"][0] <= wi <= e["wind"][1] and e["precip"][0] <= p <= e["precip"][1]
+    visited, rep = res["w"]
+    print("day", day, "cell", w["cell"], "values at (tm_yday-1)*24+%d:" % WEATHER_HOUR, (t, wi, p), "inside envelope:", ok,
+          "| visited:", visited, "report:", rep)
+    if visited and not ok:
+        ctx.violate("C08:weather:visited-outside-envelope", "site visited on a day whose weather is outside the envelope", {"weather": w})
+    if not ok and rep != (0, 0, 0, 0, 0):
+        ctx.violate("C08:weather:unworkable-request-not-requeued", "unworkable site's report changed", {"weather": w})
 
 
 def wholerun_oracle(ctx):
@@ -432,7 +504,8 @@ def run(ctx):
                 "daylight hours p/100, p/7, p/13 as exact Fractions and non-empty plans, the model fed in units of 1/q "
                 "minute; budget: workday x daylight in 0..24 "
                 "and quarter-hour daylight through the real daylight calculator; weather: real lookup cubes with unsorted "
-                "axes, random site locations and days. non-trivial = distinct (stage, class, branch/outcome shape) keys")
+                "axes whose days are pairwise distinguishable, a site near every cell + random sites, year boundaries and 29 Feb "
+                "of 2020/2021/2023/2024 always, every day-of-year incl. 366 of the leap years (sampled in quick). non-trivial = distinct (stage, class, branch/outcome shape) keys")
     core.lean_stage(ctx, MODULE, FILE, drivers=["drv_crew"])
     stage_steps(ctx)
     stage_multiday(ctx)
@@ -510,6 +583,8 @@ def replay(ctx, data):
         print("impl budget:", got, "expected", 60 * (min(w, d) if cd else w))
         if got != 60 * (min(w, d) if cd else w):
             ctx.violate("C08:budget:not-min-workday-daylight", "budget", inp)
+    elif "weather" in inp:
+        replay_weather(ctx, inp["weather"])
     elif "wholerun" in inp:
         from harness.props import _crew_wholerun as W
 
